@@ -58,7 +58,7 @@ def mentioned(jp):
 
 def generate(run_seed, tier):
     rng = stream(run_seed, "gen")
-    kind = G.wchoice(rng, [("O", 80), ("B", 12), ("F", 1.6 if tier == "quick" else 3)])
+    kind = G.wchoice(rng, [("O", 80), ("B", 12), ("F", 2.5 if tier == "quick" else 4)])
     seed = derive(run_seed, "stream") % 10**9
     if kind in ("O", "B"):
         jp = gen_profile(rng)
@@ -79,9 +79,36 @@ def generate(run_seed, tier):
     k = rng.randint(2, 4)
     names = G.NAME_FAMILIES["plain"][: k + rng.randint(0, 1)]
     tied = names[:k]
-    bs = [{"r": [[c]] + [[x] for x in rng.sample([y for y in names if y != c], rng.randint(0, len(names) - 1))], "w": "2"} for c in tied]
+    def tail(c):
+        return [[x] for x in rng.sample([y for y in names if y != c], rng.randint(0, len(names) - 1))]
+
+    if rng.random() < 0.3:
+        bs = [{"r": [[c]] + tail(c), "w": "2"} for c in tied]
+    else:
+        # the same total reached by a different decomposition for every tied candidate (thirds, sevenths, a shared tied first
+        # place): the totals are exactly equal as rationals, while any float detour rounds each sum differently
+        T = Fraction(rng.choice([1, 2, 2, 3, 5])) / rng.choice([1, 1, 3])
+        bs = []
+        shared = None
+        for c in tied:
+            if shared == c:
+                continue
+            style = rng.choice(["single", "thirds", "thirds", "sevenths", "fifths", "shared" if sub == "PluralityTie" else "thirds"])
+            partners = [d for d in tied if d != c and tied.index(d) > tied.index(c) and shared is None]
+            if style == "shared" and partners:
+                shared = partners[0]
+                rest = [[x] for x in rng.sample([y for y in names if y not in (c, shared)], rng.randint(0, len(names) - 2))]
+                bs.append({"r": [sorted([c, shared])] + rest, "w": canon.fs(2 * T)})
+                continue
+            parts = {"single": [1], "thirds": [Fraction(1, 3), Fraction(2, 3)], "sevenths": [Fraction(1, 7), Fraction(2, 7), Fraction(4, 7)],
+                     "fifths": [Fraction(2, 5), Fraction(3, 5)], "shared": [1]}[style]
+            for f in parts:
+                bs.append({"r": [[c]] + tail(c), "w": canon.fs(T * f)})
+        rng.shuffle(bs)
+    each = sum((Fraction(b["w"]) for b in bs), Fraction(0)) / k
     if len(names) > k:
-        bs.append({"r": [[names[-1]]], "w": "5" if sub == "PluralityTie" else "3"})
+        # Plurality: an outsider seated before the tie; IRV: an outsider above the tied (lowest) candidates but short of a majority
+        bs.append({"r": [[names[-1]]], "w": canon.fs(each * 3 if sub == "PluralityTie" else each * Fraction(3, 2))})
     jp = {"candidates": names, "ballots": bs}
     if sub == "PluralityTie":
         m = rng.randint(1, k - 1) + (1 if len(names) > k else 0)
